@@ -617,6 +617,21 @@ class Interp:
         if isinstance(v, SliceV):
             if attr in ("start", "stop", "step"):
                 return getattr(v, attr)
+            if attr == "indices":
+                def indices(i, a, k, sv=v):
+                    n = a[0]
+                    def nrm(x, dflt):
+                        if x is None:
+                            return dflt
+                        if i.decide_num(x, ast.Lt(), num(0)):
+                            x = x + n
+                            if i.decide_num(x, ast.Lt(), num(0)):
+                                x = num(0)
+                        elif i.decide_num(x, ast.Gt(), n):
+                            x = n
+                        return x
+                    return (nrm(sv.start, num(0)), nrm(sv.stop, n), num(1))
+                return BoundBuiltin(indices)
         if isinstance(v, Col):
             if attr in ("max", "min", "sum"):
                 return BoundBuiltin(lambda i, ar, k: {"max": _minmax("max"), "min": _minmax("min"), "sum": _b_sum}[attr](i, [v], {}))
@@ -1122,6 +1137,8 @@ class Interp:
             return a * int(b.const_value())
         if isinstance(op, ast.Mod) and isinstance(a, str):
             return Unknown("fstr")
+        if a is None or b is None:
+            raise _Raise(ExcV("TypeError", [f"unsupported operand type(s): {type(a).__name__} and {type(b).__name__}"]))
         if isinstance(a, Unknown) or isinstance(b, Unknown) or isinstance(a, str) or isinstance(b, str):
             return Unknown("arith")
         if isinstance(a, Col) and isinstance(b, Col) and len(a.items) == len(b.items):
@@ -1403,6 +1420,8 @@ def _b_len(it, args, kw):
         return num(len(v.rows))
     if isinstance(v, IterV):
         return num(len(v.items))
+    if isinstance(v, Obj) and "__len__" in v.attrs:
+        return it.call(v.attrs["__len__"], [], {})
     if isinstance(v, Obj) and v.node is not None:
         hit = it.repo.find_method(v.mod, v.node, "__len__")
         if hit:
